@@ -625,6 +625,15 @@ impl Mp4Track {
             Err(err) => return Err(err),
         };
 
+        // Do not trust the size table for the allocation: make sure the stream really holds
+        // the sample before allocating a buffer for it.
+        let stream_len = reader.seek(SeekFrom::End(0))?;
+        if sample_offset
+            .checked_add(sample_size as u64)
+            .map_or(true, |end| end > stream_len)
+        {
+            return Err(Error::IoError(std::io::ErrorKind::UnexpectedEof.into()));
+        }
         let mut buffer = vec![0x0u8; sample_size as usize];
         reader.seek(SeekFrom::Start(sample_offset))?;
         reader.read_exact(&mut buffer)?;
